@@ -188,6 +188,13 @@ func (s *SwapStateMachine) SendEvent(event EventType, eventCtx EventContext) (bo
 	}
 	var err error
 
+	// An event that the current state does not accept is rejected before its
+	// context is validated or applied: a message that does not belong to this
+	// point of the protocol must not change the swap data.
+	if _, err = s.getNextState(event); err != nil {
+		return false, ErrEventRejected
+	}
+
 	// validate and apply event context
 	if eventCtx != nil {
 		err = eventCtx.Validate(s.Data)
